@@ -39,6 +39,7 @@ def main():
     args = [a for a in sys.argv[1:] if not a.startswith("--")]
     tier = "quick"
     also = []
+    auto = "--auto" in sys.argv
     for i, a in enumerate(sys.argv):
         if a == "--tier":
             tier = sys.argv[i + 1]
@@ -66,7 +67,17 @@ def main():
         if r.returncode != 0:
             entry["apply_error"] = r.stdout[-500:]
         else:
-            for pr in [prop] + [a for a in also if a != prop]:
+            extra = list(also)
+            if auto:
+                files = " ".join(meta.get("files_changed", []))
+                area = [("smt/sat_core", ["C07", "C08", "C13"]), ("smt/clause", ["C07"]), ("smt/theory", ["C07", "C08"]), ("smt/arith/dl", ["C10", "C12", "C08"]),
+                        ("smt/arith/lra", ["C09", "C11", "C08", "C20"]), ("smt/ov", ["C14", "C08"]), ("smt/arith/rational", ["C15"]), ("smt/arith/lin", ["C15"]),
+                        ("smt/arith/inf_rational", ["C15"]), ("smt/concurrent", ["C20"]), ("riddle/", ["C16", "C18"]), ("core/", ["C01", "C16", "C17", "C03", "C06"]),
+                        ("solver/types", ["C04", "C05"]), ("solver/", ["C01", "C02", "C03", "C06"]), ("executor/", ["C19"])]
+                for pat, props in area:
+                    if pat in files:
+                        extra += [q for q in props if q not in extra]
+            for pr in [prop] + [a for a in extra if a != prop]:
                 if pr not in claimed and not os.path.exists(os.path.join(copy, "tools/checks", pr.lower() + ".py")):
                     entry["checks"][pr] = {"rc": None, "note": "no check for this property yet"}
                     continue
